@@ -2,6 +2,7 @@
    Core Lean only (nothing imported here may import Mathlib, or the executable will not link). -/
 import ChibiVerif.Driver.LexTotalCmd
 import ChibiVerif.Driver.C13SitesCmd
+import ChibiVerif.Driver.C13InitFuelCmd
 
 def main (args : List String) : IO UInt32 := do
   match args with
@@ -11,6 +12,9 @@ def main (args : List String) : IO UInt32 := do
   | ["literal"] =>
     ChibiVerif.Driver.C13SitesCmd.run (← IO.getStdin) (← IO.getStdout)
     return 0
+  | ["initfuel"] =>
+    ChibiVerif.Driver.C13InitFuelCmd.run (← IO.getStdin) (← IO.getStdout)
+    return 0
   | _ =>
-    IO.eprintln s!"drv_c13: unknown sub-command {args} (known: lextotal, literal)"
+    IO.eprintln s!"drv_c13: unknown sub-command {args} (known: lextotal, literal, initfuel)"
     return 2
